@@ -548,10 +548,10 @@ def task_config(ctx):
 
 
 def tasks(tier, scale=1.0):
-    n, steps = (100, 25) if tier == 'quick' else (1500, 40)
+    n, steps = (100, 25) if tier == 'quick' else (3000, 40)
     n = int(n * scale)
     out = [('machine-%d' % i, 'task_machine', {'n': n, 'steps': steps}) for i in range(12)]
-    nh = int((1500 if tier == 'quick' else 25000) * scale)
+    nh = int((1500 if tier == 'quick' else 60000) * scale)
     out += [('hyp-view-%d' % i, 'task_hyp', {'which': 'view', 'n': nh}) for i in range(1)]
     out += [('hyp-container-%d' % i, 'task_hyp', {'which': 'container', 'n': nh}) for i in range(2)]
     out.append(('config', 'task_config', {}))
